@@ -267,7 +267,7 @@ theorem exec_inv (now : Time) (c : Call) (d : Db) (sq : Seqs) (hf : c.Fresh) (h 
       · cases he; exact h.congr rfl rfl
 
 /-- A program of write-path calls preserves the invariant. -/
-theorem run_inv {α : Type} (now : Time) (hn : String) (f : Option Fault) (p : Prog α) (hp : p.All Call.Fresh)
+theorem run_inv {α : Type} (now : Time) (hn : String) (f : Faults) (p : Prog α) (hp : p.All Call.Fresh)
     (st : RunSt) (h : Inv st.db st.seq) :
     Inv (run now hn f p st).2.db (run now hn f p st).2.seq := by
   have := run_rel now hn f Call.Fresh (fun x y => Inv x.1 x.2 → Inv y.1 y.2) (fun _ hx => hx)
